@@ -334,8 +334,9 @@ func (tb *LTable) RawGetString(key string) LValue {
 // ForEach iterates over this table of elements, yielding each in turn to a given function.
 func (tb *LTable) ForEach(cb func(LValue, LValue)) {
 	if tb.array != nil {
-		for i, v := range tb.array {
-			if v != LNil {
+		// index with the live length: the callback may shrink the array (table.remove)
+		for i := 0; i < len(tb.array); i++ {
+			if v := tb.array[i]; v != LNil {
 				cb(LNumber(i+1), v)
 			}
 		}
